@@ -618,3 +618,6 @@ def run(ctx):
     # and follows the specification that makes the result an ordered contiguous cover (case analysis R03.8)
     from . import c03
     ctx.guard(c03.r03_8)
+    # nothing __call__ itself remembers between calls (a memo of "the last query") may change an answer
+    from . import c06
+    ctx.guard(c06.r06_7)
